@@ -29,7 +29,8 @@ def operand_variants():
     return out
 
 
-def enc_operand_spec():
+def enc_operand_spec(enum_num=None):
+    """enum_num: optional function T -> spec expression text for the number of enum value `v` (default `v as u32`)"""
     masks = set(t for t, _ in mask_decls())
     enums = set(e.name for e in Source.get(SPIRV).find_all("enum"))
     arms = []
@@ -38,7 +39,7 @@ def enc_operand_spec():
         if t in masks:
             arms.append("        dr::Operand::%s(v) => seq![v.bits_]," % v)
         elif t in enums:
-            arms.append("        dr::Operand::%s(v) => seq![v as u32]," % v)
+            arms.append("        dr::Operand::%s(v) => seq![%s]," % (v, enum_num(t) if enum_num else "v as u32"))
         elif t in ("Word", "u32"):
             arms.append("        dr::Operand::%s(v) => seq![v]," % v)
         elif t == "u64":
@@ -75,6 +76,41 @@ def enc_operand_spec():
     out += ("// all variants: unfolding of both forms (no reveal here: only the per-variant lemmas)\n"
             "pub proof fn operand_facts(s: Seq<u32>, op: dr::Operand)\n    ensures append_operand(s, op) =~= s + enc_operand(op),\n{\n    match op {\n%s\n    }\n}\n"
             % "\n".join(calls))
+    return out
+
+
+def first_word_spec(enum_num=None):
+    """`first_word(op)`: the first word of the encoding of an operand, per payload type (O1); shared with unit parser_core, which
+    proves that every operand it parses has first_word == the word it was read from"""
+    masks = set(t for t, _ in mask_decls())
+    enums = set(e.name for e in Source.get(SPIRV).find_all("enum"))
+    fw = []
+    for v, ty in operand_variants():
+        t = ty.replace("spirv::", "")
+        fw.append("        dr::Operand::%s(v) => %s," % (v, "v.bits_" if t in masks else (enum_num(t) if enum_num else "v as u32") if t in enums
+                                                        else "v" if t in ("Word", "u32") else "v as u32" if t == "u64" else "0u32"))
+    return ("// first word of the encoding of an operand (enumerant number, mask bits, the word, low half of a 64-bit literal); strings: enc_str\n"
+            "pub open spec fn first_word(op: dr::Operand) -> u32 {\n    match op {\n%s\n    }\n}" % "\n".join(fw))
+
+
+def first_word_lemma():
+    """enc_operand(op) is [first_word(op)] (64-bit literals: followed by the high half), for every non-string operand:
+    one small lemma per variant (both functions opaque, revealed only there), then the dispatch"""
+    per, calls = [], []
+    for v, ty in operand_variants():
+        if ty.replace("spirv::", "") == "String":
+            calls.append("        dr::Operand::%s(v) => {}" % v)
+            continue
+        rhs = "seq![first_word(dr::Operand::%s(v)), (v >> 32) as u32]" % v if ty == "u64" else "seq![first_word(dr::Operand::%s(v))]" % v
+        per.append("pub proof fn first_word_%s(v: %s)\n    ensures enc_operand(dr::Operand::%s(v)) =~= %s,\n{ reveal(enc_operand); reveal(first_word); }" % (v, ty, v, rhs))
+        calls.append("        dr::Operand::%s(v) => { first_word_%s(v); }" % (v, v))
+    out = ""
+    for k in range(0, len(per), 8):
+        out += ("pub mod fw_%d { use vstd::prelude::*; use crate::dr; use crate::spirv; use super::*;\n%s\n}\npub use self::fw_%d::*;\n"
+                % (k, "\n".join(per[k:k + 8]), k))
+    out += ("pub proof fn enc_is_first_word(op: dr::Operand)\n    requires !(op is LiteralString),\n"
+            "    ensures enc_operand(op) =~= (match op { dr::Operand::LiteralBit64(v) => seq![first_word(op), (v >> 32) as u32], _ => seq![first_word(op)] }),\n"
+            "{\n    match op {\n%s\n    }\n}" % "\n".join(calls))
     return out
 
 
@@ -146,6 +182,9 @@ def build(tier="quick", must_fail=False):
     g.raw("pub mod binary { pub mod assemble {\nuse vstd::prelude::*;\nuse crate::dr;\nuse crate::spirv;")
     g.raw(PRELUDE)
     g.raw(enc_operand_spec())
+    g.raw("#[verifier::opaque]\n" + first_word_spec().split("\n", 1)[1])
+    if not must_fail:
+        g.raw(first_word_lemma())
 
     def impl_fn(ty):
         imps = [i for i in src.find_all("impl") if i.impl_of == ty and i.impl_trait == "Assemble"]
